@@ -346,6 +346,23 @@ void load_files() {
     Bytes b((std::istreambuf_iterator<char>(f)), std::istreambuf_iterator<char>());
     if (b.size() >= 10) g_files.push_back({n, b});
   }
+  // hand-assembled streams (corpus/handmade/README.md)
+  const char *home = getenv("VERIF_HOME");
+  const std::string hdir = std::string(home ? home : "/verif") + "/corpus/handmade";
+  std::vector<std::string> hn;
+  if (DIR *d = opendir(hdir.c_str())) {
+    while (dirent *de = readdir(d)) {
+      std::string n = de->d_name;
+      if (n.size() > 4 && n.substr(n.size() - 4) == ".drc") hn.push_back(n);
+    }
+    closedir(d);
+  }
+  std::sort(hn.begin(), hn.end());
+  for (auto &n : hn) {
+    std::ifstream f(hdir + "/" + n, std::ios::binary);
+    Bytes b((std::istreambuf_iterator<char>(f)), std::istreambuf_iterator<char>());
+    if (b.size() >= 10) g_files.push_back({"hand:" + n, b});
+  }
 }
 void add_file_space(mc::Runner &R, const std::string &name) {
   mc::Space s;
@@ -356,9 +373,9 @@ void add_file_space(mc::Runner &R, const std::string &name) {
     const FileEntry &f = g_files[idx];
     ctx.count("legacy_or_shipped_files");
     ctx.count("files_of_bitstream_v" + std::to_string(f.bytes[5]) + "." + std::to_string(f.bytes[6]));
-    check_stream(f.bytes, ctx, f.bytes[5] < 2 ? "bitstream<2.0" : "", "file " + f.name);
+    check_stream(f.bytes, ctx, f.bytes[5] < 2 ? (f.name.compare(0, 5, "hand:") == 0 ? "bitstream<2.0,hand-assembled" : "bitstream<2.0") : "", "file " + f.name);
   };
-  s.describe = [](uint64_t idx) { return "testdata/" + g_files[idx].name + " x every subset of the attribute types present"; };
+  s.describe = [](uint64_t idx) { return (g_files[idx].name.compare(0, 5, "hand:") == 0 ? "" : "testdata/") + g_files[idx].name + " x every subset of the attribute types present"; };
   R.add(s);
 }
 
